@@ -29,4 +29,10 @@ DirectiveInstances(maxDeviations) ==
                sh \in {f \in [DirectiveFields[d] -> FieldShapes] :
                          Cardinality({k \in DirectiveFields[d] : f[k] # "good"}) <= maxDeviations}} :
            d \in DirectiveNames}
+
+(* Metadata text and bytes around the ledger's 64-byte limit: `prefix` one-byte characters, then one      *)
+(* character of `width` bytes (so that it may straddle byte 64), then `tail` more; written as one literal,  *)
+(* as a concatenation that only exists after reduction, or as bytes.                                      *)
+MetadataTextCases == {[prefix |-> k, width |-> w, tail |-> t, form |-> f] :
+                         k \in 58..66, w \in 1..4, t \in {0, 5}, f \in {"string", "concat", "bytes"}}
 =============================================================================
